@@ -70,7 +70,13 @@ impl DSSEParser for PaeV1 {
 
         // Extract payload_ver from bytes
         let (payload_ver_len, raw) = consume_load_len(raw)?;
-        let payload_ver = str::from_utf8(&raw[0..payload_ver_len])?
+        let payload_ver_raw = raw.get(0..payload_ver_len).ok_or_else(|| {
+            Error::PAEParseFailed(format!(
+                "payload type shorter than its length {} in {:?}",
+                payload_ver_len, raw
+            ))
+        })?;
+        let payload_ver = str::from_utf8(payload_ver_raw)?
             .parse::<String>()
             .map_err(|_| {
                 Error::PAEParseFailed(format!(
@@ -80,9 +86,25 @@ impl DSSEParser for PaeV1 {
             })?;
 
         // Extract payload from bytes
-        let (payload_len, raw) =
-            consume_load_len(&raw[(payload_ver_len + 1)..])?;
-        let payload = raw[0..payload_len].to_vec();
+        let rest = payload_ver_len
+            .checked_add(1)
+            .and_then(|start| raw.get(start..))
+            .ok_or_else(|| {
+                Error::PAEParseFailed(format!(
+                    "no payload after payload type in {:?}",
+                    raw
+                ))
+            })?;
+        let (payload_len, raw) = consume_load_len(rest)?;
+        let payload = raw
+            .get(0..payload_len)
+            .ok_or_else(|| {
+                Error::PAEParseFailed(format!(
+                    "payload shorter than its length {} in {:?}",
+                    payload_len, raw
+                ))
+            })?
+            .to_vec();
 
         Ok((payload, payload_ver))
     }
